@@ -6,6 +6,7 @@ sys.path.insert(0, os.path.join(VERIF, "lib"))
 import registry
 
 NA = {
+    "C13": "NSEC/NSEC3 chain generation walks sorted generic record collections and hashes with ring; no contract in reach decides completeness, order or closure of a chain. A Kani harness for RtypeBitmapBuilder (one add, 236 s; two adds do not terminate) exists in kani/g0/src/dnssec.rs but is far too thin to claim the property.",
     "C08": "RFC 1034/4592 answer function over lock-protected hash-map trees (Arc/RwLock/HashMap/dyn walkers) and update histories; no contract in reach of Verus or Kani expresses or decides it (DESIGN.md section 4, C08)",
 }
 NOT_YET = "check not built yet (DESIGN.md section 8 build order); nothing is claimed on the strength of the plan alone"
